@@ -1,6 +1,573 @@
-//! C03 — not implemented yet.
+//! C03 — Optimization never changes a query's answer.
+//!
+//! Generator (`c03_util`): 1–3 tables whose first two columns are integer keys
+//! drawn from the statistics profiles the rules gate on (tiny domains; the
+//! "uniqueness trap" = null-free, max-min+1 >= row count, yet duplicated;
+//! truly unique dense/sparse keys; negative minima; ranges straddling 2^31 /
+//! 2^32 / i32::MAX; a far outlier), plus small-domain INT/DOUBLE/VARCHAR/DATE
+//! columns, 0–20 % NULLs, table-unique column names (the statistics rules
+//! resolve columns by bare name) or, rarely, shared names. Every table is
+//! registered twice: as a memory table (no statistics) and as Parquet with
+//! footer statistics (random file / row-group layout). Statements: sqlgen's
+//! full grammar (30 %) and focused shapes that make each rule fire (FD-shaped
+//! GROUP BY over key joins, SUM-only aggregates above duplicating joins, LEFT
+//! JOIN + COUNT, two-integer group keys / join keys, OR-of-conjunctions, HAVING
+//! totals, EXISTS/IN below inner joins, derived tables shadowing base-column
+//! names, ORDER BY + LIMIT above aggregates).
+//!
+//! Oracle (differential, per registration): `ctx.sql` (production optimizer) vs
+//! the bound plan lowered directly; each production rule ALONE and each PREFIX
+//! of the production order (`Optimizer::with_rules`, statistics-aware) vs the
+//! same baseline. `refsql` is the third opinion recorded in the message (which
+//! side is wrong) and decides only how ORDER BY/LIMIT ties are compared.
+//! A disagreement is narrowed to the first single rule (else first prefix)
+//! whose plan changes the answer.
 use super::Property;
+use crate::data::*;
+use crate::engine::*;
+use crate::refsql::{self, Db, RefAnswer};
+use crate::runner::*;
+use proptest::strategy::BoxedStrategy;
+use crate::sqlast::Query;
+use crate::sqlcheck::{fmt_tables, short_err};
+use query_engine::planner::LogicalPlan;
+use query_engine::ExecutionContext;
+use std::collections::{BTreeSet, HashMap};
+
+#[path = "c03_util.rs"]
+mod util;
+use util::*;
+
+pub enum Cmp {
+    Same,
+    Differ(String),
+    Inconclusive(&'static str),
+}
+
+/// Are two engine answers "the same rows" for this statement? (`a` = baseline)
+pub fn compare(q: &Query, reference: Option<&RefAnswer>, a: &Rows, b: &Rows, tol: f64) -> Cmp {
+    let has_order = !q.order_by.is_empty();
+    let has_limit = q.limit.is_some() || q.offset.is_some();
+    let show = |who: &str| {
+        format!(
+            "{}\n baseline / unoptimized ({} rows):\n{} optimized ({} rows):\n{}",
+            who,
+            a.len(),
+            fmt_rows(&if has_order { a.clone() } else { sorted(a) }, 40),
+            b.len(),
+            fmt_rows(&if has_order { b.clone() } else { sorted(b) }, 40)
+        )
+    };
+    if let Some(r) = reference {
+        let ra = refsql::compare_answer(r, a, tol);
+        let rb = refsql::compare_answer(r, b, tol);
+        return match (ra.is_ok(), rb.is_ok()) {
+            (true, true) => Cmp::Same,
+            (true, false) => Cmp::Differ(show("reference agrees with the UNOPTIMIZED answer; the optimized answer is wrong")),
+            (false, true) => Cmp::Differ(show("reference agrees with the OPTIMIZED answer; the unoptimized answer is wrong")),
+            (false, false) => {
+                if (has_order && rows_eq(a, b, tol)) || (!has_order && multiset_eq(a, b, tol)) {
+                    Cmp::Same
+                } else if !has_limit && !multiset_eq(a, b, tol) {
+                    Cmp::Differ(show(&format!("reference disagrees with BOTH answers, and they differ from each other; reference ({} rows):\n{}", r.rows.len(), fmt_rows(&r.rows, 40))))
+                } else if has_limit {
+                    Cmp::Inconclusive("both_wrong_limit")
+                } else {
+                    Cmp::Inconclusive("both_wrong_order")
+                }
+            }
+        };
+    }
+    if has_limit {
+        if rows_eq(a, b, tol) || multiset_eq(a, b, tol) {
+            Cmp::Same
+        } else {
+            Cmp::Inconclusive("limit_without_reference")
+        }
+    } else if !multiset_eq(a, b, tol) {
+        Cmp::Differ(show("(no reference answer: statement outside refsql's dialect)"))
+    } else {
+        Cmp::Same
+    }
+}
+
+fn sorted(r: &Rows) -> Rows {
+    let mut x = r.clone();
+    canon_sort(&mut x);
+    x
+}
+
+fn has(c: &OptCase, f: &str) -> bool {
+    c.sql_case.features.iter().any(|x| x == f)
+}
+
+/// number of `column = column` comparisons in a plan (join keys and predicates)
+fn col_equalities(p: &LogicalPlan) -> usize {
+    use query_engine::planner::{BinaryOp, Expr as E};
+    let mut n = 0;
+    for_each_node(p, &mut |node| {
+        match node {
+            LogicalPlan::Join(j) => n += j.on.iter().filter(|(l, r)| matches!((l, r), (E::Column(_), E::Column(_)))).count(),
+            LogicalPlan::DelimJoin(j) => n += j.on.len(),
+            _ => {}
+        }
+        for e in node_exprs(node) {
+            expr_walk(e, &mut |x| {
+                if let E::BinaryExpr { left, op: BinaryOp::Eq, right } = x {
+                    if matches!((&**left, &**right), (E::Column(_), E::Column(_))) {
+                        n += 1;
+                    }
+                }
+            });
+        }
+    });
+    n
+}
+
+/// An integer column of some table that is null-free, spans at least as many
+/// values as the table has rows (so footer statistics estimate it unique),
+/// yet holds duplicates — and is named by the statement (group key or join key).
+fn trap_group_key(c: &OptCase) -> bool {
+    // (group keys and the join keys through which functional dependencies are chased:
+    // any such column is named in the statement text)
+    let sql = c.sql_case.query.sql().to_lowercase();
+    let named = |n: &str| {
+        let n = n.to_lowercase();
+        sql.match_indices(&n).any(|(i, _)| {
+            let before = sql[..i].chars().last().map(|ch| !ch.is_alphanumeric() && ch != '_').unwrap_or(true);
+            let after = sql[i + n.len()..].chars().next().map(|ch| !ch.is_alphanumeric() && ch != '_').unwrap_or(true);
+            before && after
+        })
+    };
+    for t in &c.sql_case.tables {
+        for (ci, col) in t.cols.iter().enumerate() {
+            if !(col.ty.is_int() || col.ty == ColType::Date) || !named(&col.name) || t.rows.len() < 2 {
+                continue;
+            }
+            let vals: Vec<i64> = t
+                .rows
+                .iter()
+                .filter_map(|r| match r[ci] {
+                    Value::Int(i) => Some(i),
+                    Value::Date(d) => Some(d as i64),
+                    _ => None,
+                })
+                .collect();
+            if vals.len() != t.rows.len() {
+                continue;
+            }
+            let (mn, mx) = (*vals.iter().min().unwrap(), *vals.iter().max().unwrap());
+            let mut d = vals.clone();
+            d.sort();
+            d.dedup();
+            if (mx - mn + 1) as usize >= vals.len() && d.len() < vals.len() {
+                return true;
+            }
+        }
+    }
+    false
+}
+
+/// an aggregate declared Int64 whose argument multiplies by CAST(__ea_cnt AS Float64)
+fn int_sum_with_float_count(p: &LogicalPlan) -> bool {
+    let mut hit = false;
+    for_each_node(p, &mut |n| {
+        if let LogicalPlan::Aggregate(a) = n {
+            for (i, e) in a.aggregates.iter().enumerate() {
+                let t = format!("{:?}", e);
+                if t.contains("__ea_cnt") && t.contains("data_type: Float64") {
+                    if let Some(f) = a.schema.fields().get(a.group_by.len() + i) {
+                        if f.data_type == arrow::datatypes::DataType::Int64 {
+                            hit = true;
+                        }
+                    }
+                }
+            }
+        }
+    });
+    hit
+}
+
+fn scans_a_table_twice(p: &LogicalPlan) -> bool {
+    let mut names: Vec<String> = vec![];
+    for_each_node(p, &mut |n| {
+        if let LogicalPlan::Scan(s) = n {
+            names.push(s.table_name.to_lowercase());
+        }
+    });
+    (0..names.len()).any(|i| names[i + 1..].contains(&names[i]))
+}
+
+/// a join keyed on a VARCHAR column one of whose inputs is itself a join
+/// (join outputs carry dictionary-encoded strings)
+fn string_key_join_over_join(p: &LogicalPlan) -> bool {
+    fn has_join(p: &LogicalPlan) -> bool {
+        let mut h = false;
+        for_each_node(p, &mut |n| {
+            if matches!(n, LogicalPlan::Join(_)) {
+                h = true
+            }
+        });
+        h
+    }
+    let mut hit = false;
+    for_each_node(p, &mut |n| {
+        if let LogicalPlan::Join(j) = n {
+            let both = j.left.schema().merge(&j.right.schema());
+            let str_key = j.on.iter().any(|(a, _)| matches!(a.data_type(&both), Ok(arrow::datatypes::DataType::Utf8)));
+            if str_key && (has_join(&j.left) || has_join(&j.right)) {
+                hit = true;
+            }
+        }
+    });
+    hit
+}
+
+/// two tables of the case have a column of the same name
+fn shared_column_names(c: &OptCase) -> bool {
+    let t = &c.sql_case.tables;
+    (0..t.len()).any(|i| (i + 1..t.len()).any(|j| t[i].cols.iter().any(|a| t[j].cols.iter().any(|b| a.name.eq_ignore_ascii_case(&b.name)))))
+}
+
+pub struct Diff<'a> {
+    pub rule: &'a str,
+    pub stats: bool,
+    pub msg: &'a str,
+    pub bound: &'a LogicalPlan,
+    pub rewritten: Option<&'a LogicalPlan>,
+}
+
+/// Signatures of C03's open findings. `rule` = the rule the disagreement was
+/// narrowed to; `stats` = it happened on the statistics-bearing registration.
+fn classify_precise(c: &OptCase, ev: &BTreeSet<&'static str>, d: &Diff) -> Option<&'static str> {
+    let opt_wrong = d.msg.contains("the optimized answer is wrong");
+    let unopt_wrong = d.msg.contains("the unoptimized answer is wrong");
+    let rt = d.rewritten.map(plan_text).unwrap_or_default();
+    let rule = d.rule;
+    // ---- optimizer defects with a known trigger ----
+    if opt_wrong || d.msg.contains("BOTH") || d.msg.contains("no reference") {
+        if rt.contains("__pk") && has(c, "shadowing_derived") {
+            return Some("opt-PackedGroupKeys-shadowed-column-stats");
+        }
+        if rt.contains("__pk") && ev.contains("null_group_key") && (has(c, "join_left") || has(c, "join_right") || has(c, "join_full")) {
+            return Some("opt-PackedGroupKeys-null-extended-key");
+        }
+        if (rt.contains("__fd_") || rt.contains("__ea_cnt") || rt.contains("__topk_key")) && d.stats && trap_group_key(c) {
+            return Some("opt-ndv-est-uniqueness-trap");
+        }
+        // an all-integer SUM term multiplied by CAST(__ea_cnt AS Float64): the aggregate's
+        // declared Int64 output receives Float64 values
+        if d.rewritten.map(int_sum_with_float_count).unwrap_or(false) {
+            return Some("opt-EagerAggregation-int-sum-float-count");
+        }
+        if rt.contains("__ea_") && rule.ends_with("EagerAggregation") {
+            // (beyond the sub-causes above: SUM over a pre-aggregated SUM yields NULL, INTEGER keys
+            // declared Int64, by-name confusion in self-joins)
+            return Some("opt-EagerAggregation-rewrite");
+        }
+        if rt.contains("__having_total_cse_") && has(c, "having_total") {
+            return Some("opt-HavingTotalCse-having-total");
+        }
+        if let Some(p) = d.rewritten {
+            if col_equalities(p) < col_equalities(d.bound) {
+                return Some("opt-join-equality-lost");
+            }
+            // FD reasoning by bare column name while a base table is scanned twice
+            if (rt.contains("__fd_") || rt.contains("__topk_key")) && scans_a_table_twice(d.bound) {
+                return Some("opt-GroupKeyReduction-self-join-by-name");
+            }
+            // hash-join key pairs of different integer width (also: EagerAggregation declaring
+            // an INTEGER pre-aggregate key as Int64)
+            if mixed_type_join_key(p).is_some() {
+                return Some("join-key-mixed-int-types");
+            }
+            if string_key_join_over_join(p) {
+                return Some("join-string-key-from-join-output");
+            }
+        }
+    }
+    if unopt_wrong && (shared_column_names(c) || scans_a_table_twice(d.bound)) {
+        return Some("unoptimized-ambiguous-bare-column-names");
+    }
+    // ---- execution-path defects shared with C01, reached by only one of the two plans ----
+    if ev.contains("global_agg_empty_input") || ev.contains("agg_no_nonnull_input") {
+        return Some("agg-empty-input");
+    }
+    if ev.contains("null_group_key") && !rt.contains("__pk") {
+        return Some("agg-null-group-key");
+    }
+    // the harness-only path: a subquery predicate evaluated by FilterExec's subquery executor
+    if unopt_wrong && ["in_subquery", "not_in_subquery", "exists", "not_exists", "scalar_subquery"].iter().any(|f| has(c, f)) && ["SubqueryDecorrelation", "FlattenDependentJoin", "PredicatePushdown", "pipeline"].contains(&rule) {
+        return Some("unoptimized-subquery-predicate-wrong");
+    }
+    None
+}
+
+/// Coarse (rule + statement shape) attribution, used only by the full-grammar
+/// check: the optimizer mishandles these statement families in many ways that
+/// have not been root-caused one by one.
+fn classify_coarse(c: &OptCase, d: &Diff) -> Option<String> {
+    let rule = d.rule.rsplit(':').next().unwrap_or(d.rule);
+    let any = |fs: &[&str]| fs.iter().any(|f| has(c, f));
+    let shape = if any(&["in_subquery", "not_in_subquery", "exists", "not_exists", "scalar_subquery"]) {
+        "subquery"
+    } else if any(&["join_left", "join_right", "join_full", "join_semi", "join_anti"]) {
+        "non-inner-join"
+    } else if any(&["union", "union_all", "intersect", "intersect_all", "except", "except_all"]) {
+        "set-operation"
+    } else if any(&["cte"]) {
+        "cte"
+    } else {
+        return None;
+    };
+    Some(format!("opt-{}-{}", rule, shape))
+}
+
+fn classify(core: bool, c: &OptCase, ev: &BTreeSet<&'static str>, d: &Diff) -> Option<String> {
+    classify_precise(c, ev, d).map(|s| s.to_string()).or_else(|| if core { None } else { classify_coarse(c, d) })
+}
+
+pub struct OptVsUnopt {
+    pub core: bool,
+    /// run the single-rule / prefix configurations on the memory registration too
+    pub all_configs_everywhere: bool,
+}
+
+struct Side<'a> {
+    ctx: &'a ExecutionContext,
+    with_stats: bool,
+}
+
+impl OptVsUnopt {
+    #[allow(clippy::too_many_arguments)]
+    fn side(&self, c: &OptCase, s: &Side, sql: &str, reference: Option<&RefAnswer>, events: &BTreeSet<&'static str>, obs: &mut Obs) -> Result<(), (Option<String>, String)> {
+        let tag = if s.with_stats { "stats" } else { "nostats" };
+        let q = &c.sql_case.query;
+        let bound = match bind(s.ctx, sql) {
+            Ok(p) => p,
+            Err(e) => {
+                obs.label(format!("bind_error:{}", short_err(&e)));
+                return Ok(());
+            }
+        };
+        let bound_text = plan_text(&bound);
+        let stats = if s.with_stats { stats_of(s.ctx) } else { HashMap::new() };
+        let unopt = execute_logical(s.ctx, &bound);
+        let prod_plan = optimize_production(&stats, &bound);
+        if let Ok(p) = &prod_plan {
+            let t = plan_text(p);
+            if t != bound_text {
+                obs.nontrivial(true);
+                obs.label(format!("{}:optimizer_changed_plan", tag));
+            }
+            if s.with_stats {
+                if let Ok(p0) = optimize_production(&HashMap::new(), &bound) {
+                    if plan_text(&p0) != t {
+                        obs.label("statistics_rule_fired");
+                    }
+                }
+            }
+            for node in ["VectorSearch", "__fd_", "__ea_", "__pk", "__topk_key", "__having_total_cse_", "DelimJoin"] {
+                if t.contains(node) {
+                    obs.label(format!("plan_has:{}", node));
+                }
+            }
+        }
+        // the production path proper
+        let opt = run_sql(s.ctx, sql);
+        let base = match (&unopt, &opt) {
+            (Err(_), Err(_)) => {
+                obs.label(format!("{}:both_error", tag));
+                return Ok(());
+            }
+            (Err(e), Ok(_)) => {
+                obs.label(format!("{}:unoptimized_not_executable:{}", tag, short_err(e)));
+                return Ok(());
+            }
+            (Ok(_), Err(e)) => {
+                // optimizer-internal / plan-validity failure: C31's business
+                obs.label(format!("{}:only_optimized_errors:{}", tag, short_err(e)));
+                unopt.as_ref().unwrap()
+            }
+            (Ok(a), Ok(b)) => {
+                match compare(q, reference, a, b, 1e-9) {
+                    Cmp::Same => obs.label(format!("{}:same", tag)),
+                    Cmp::Inconclusive(why) => obs.label(format!("{}:inconclusive:{}", tag, why)),
+                    Cmp::Differ(msg) => {
+                        let (rule, detail) = self.narrow(s, q, reference, &bound, &stats, a);
+                        obs.label(format!("differ:{}", rule));
+                        let full = format!(
+                            "[production / {}] optimized answer differs from unoptimized; first rule that changes the answer: {}\n{}\n{}\n sql: {}\n ref-events: {:?}\n bound plan:\n{} optimized plan:\n{} tables: {}",
+                            tag,
+                            rule,
+                            detail,
+                            msg,
+                            sql,
+                            events,
+                            bound,
+                            prod_plan.as_ref().map(|p| p.to_string()).unwrap_or_else(|e| e.clone()),
+                            fmt_tables(&c.sql_case.tables)
+                        );
+                        let d = Diff { rule: &rule, stats: s.with_stats, msg: &msg, bound: &bound, rewritten: prod_plan.as_ref().ok() };
+                        return Err((classify(self.core, c, events, &d), full));
+                    }
+                }
+                a
+            }
+        };
+        // each rule alone, each prefix (quick tier: on the statistics-bearing side only)
+        if !s.with_stats && !self.all_configs_everywhere {
+            return Ok(());
+        }
+        let mut seen: HashMap<String, ()> = HashMap::new();
+        seen.insert(bound_text.clone(), ());
+        if let Ok(p) = &prod_plan {
+            if opt.is_ok() {
+                seen.insert(plan_text(p), ());
+            }
+        }
+        for (name, rules) in configurations() {
+            let plan = match optimize_with(rules, &stats, &bound) {
+                Ok(p) => p,
+                Err(_) => {
+                    obs.label(format!("{}:config_optimize_error", tag));
+                    continue;
+                }
+            };
+            let t = plan_text(&plan);
+            if seen.contains_key(&t) {
+                continue;
+            }
+            seen.insert(t, ());
+            obs.label(format!("ran:{}", name.split(':').next().unwrap_or("")));
+            match execute_logical(s.ctx, &plan) {
+                Err(e) => obs.label(format!("{}:config_exec_error:{}", tag, short_err(&e))),
+                Ok(rows) => match compare(q, reference, base, &rows, 1e-9) {
+                    Cmp::Same => {}
+                    Cmp::Inconclusive(why) => obs.label(format!("{}:config_inconclusive:{}", tag, why)),
+                    Cmp::Differ(msg) => {
+                        let rule = name.rsplit(':').next().unwrap_or("").to_string();
+                        obs.label(format!("differ:{}", rule));
+                        let full = format!(
+                            "[{} / {}] answer of the plan rewritten by this rule configuration differs from unoptimized (the production pipeline's answer did not)\n{}\n sql: {}\n ref-events: {:?}\n bound plan:\n{} rewritten plan:\n{} tables: {}",
+                            name,
+                            tag,
+                            msg,
+                            sql,
+                            events,
+                            bound,
+                            plan,
+                            fmt_tables(&c.sql_case.tables)
+                        );
+                        let d = Diff { rule: &rule, stats: s.with_stats, msg: &msg, bound: &bound, rewritten: Some(&plan) };
+                        return Err((classify(self.core, c, events, &d), full));
+                    }
+                },
+            }
+        }
+        Ok(())
+    }
+
+    /// first single rule, else first prefix, whose plan's answer differs from the baseline
+    fn narrow(&self, s: &Side, q: &Query, reference: Option<&RefAnswer>, bound: &LogicalPlan, stats: &HashMap<String, query_engine::physical::operators::TableStatistics>, base: &Rows) -> (String, String) {
+        let mut first_prefix: Option<(String, String)> = None;
+        for (name, rules) in configurations() {
+            let plan = match optimize_with(rules, stats, bound) {
+                Ok(p) => p,
+                Err(_) => continue,
+            };
+            if let Ok(rows) = execute_logical(s.ctx, &plan) {
+                if let Cmp::Differ(_) = compare(q, reference, base, &rows, 1e-9) {
+                    let rule = name.rsplit(':').next().unwrap_or("").to_string();
+                    if name.starts_with("alone:") {
+                        return (rule, format!(" narrowed by: {} (this rule alone changes the answer)\n plan after that rule alone:\n{}", name, plan));
+                    } else if first_prefix.is_none() {
+                        first_prefix = Some((rule, format!(" narrowed by: {} (no single rule changes the answer; this is the shortest prefix of the production order that does)\n plan after that prefix:\n{}", name, plan)));
+                    }
+                }
+            }
+        }
+        first_prefix.unwrap_or_else(|| ("pipeline".to_string(), " narrowed by: nothing — only the complete production pipeline (fixpoint iteration) changes the answer".to_string()))
+    }
+}
+
+impl Check for OptVsUnopt {
+    type Case = OptCase;
+    fn name(&self) -> &'static str {
+        if self.core {
+            "optimized_vs_unoptimized_core"
+        } else {
+            "optimized_vs_unoptimized_full"
+        }
+    }
+    fn rule(&self) -> &'static str {
+        "the statement binds, the unoptimized plan executes, and the production optimizer's plan text differs from the bound plan's (labels count separately the cases where a statistics rule fired: plan with footer statistics != plan without)"
+    }
+    fn cases(&self, tier: Tier) -> u32 {
+        if self.core {
+            tier.pick(400, 30_000)
+        } else {
+            tier.pick(300, 20_000)
+        }
+    }
+    fn max_shrink_iters(&self) -> u32 {
+        150
+    }
+    fn strategy(&self, tier: Tier) -> BoxedStrategy<OptCase> {
+        opt_case_strategy_mode(tier, self.core)
+    }
+    fn test(&self, c: &OptCase, obs: &mut Obs) -> Verdict {
+        let sql = c.sql_case.query.sql();
+        for f in &c.sql_case.features {
+            if f.starts_with("shape:") {
+                obs.label(f.clone());
+            }
+        }
+        obs.sample(serde_json::json!({"sql": sql}));
+        let q = &c.sql_case.query;
+        if (q.limit.is_some() || q.offset.is_some()) && q.order_by.is_empty() {
+            return Verdict::Discard("limit_without_order".into());
+        }
+        let db = Db::new(&c.sql_case.tables);
+        let reference = match db.run(q) {
+            Ok(r) => Some(r),
+            Err(e) => {
+                // (a column the standard does not put in scope, e.g. `a, b JOIN c ON a.x = c.x`)
+                if e.contains("engine-defined") || e.contains("overflow") || e.contains("unknown column") || e.contains("ambiguous column") {
+                    return Verdict::Discard(format!("ref:{}", short_err(&e)));
+                }
+                obs.label(format!("no_reference:{}", short_err(&e)));
+                None
+            }
+        };
+        let events = db.events.borrow().clone();
+        let mem = mem_context(c);
+        let dir = TempDir::new("c03");
+        let pq = match parquet_context(c, &dir) {
+            Ok(x) => x,
+            Err(e) => return Verdict::Discard(format!("parquet_registration:{}", short_err(&e))),
+        };
+        for s in [Side { ctx: &pq, with_stats: true }, Side { ctx: &mem, with_stats: false }] {
+            if let Err((id, msg)) = self.side(c, &s, &sql, reference.as_ref(), &events, obs) {
+                return match id {
+                    Some(id) => Verdict::Known { id, msg },
+                    None => Verdict::Fail(msg),
+                };
+            }
+        }
+        Verdict::Pass
+    }
+}
 
 pub fn property() -> Property {
-    Property { id: "C03", level: "exploration", assumptions: &[], checks: vec![] }
+    Property {
+        id: "C03",
+        level: "exploration",
+        assumptions: &[
+            "'the same rows' = multiset equality; with ORDER BY, the same tie-group positions; with LIMIT/OFFSET, rows of the boundary tie group in any choice (DESIGN §3.4) — decided through the reference evaluator where the statement is inside its dialect, otherwise LIMIT cases with different rows are counted inconclusive",
+            "statements whose reference evaluation overflows / yields -0.0 are engine-defined and discarded",
+            "exactly one side failing with an error is not an answer change: an optimizer-side error is C31's subject, an unexecutable bound plan is inconclusive",
+        ],
+        checks: vec![Box::new(OptVsUnopt { core: true, all_configs_everywhere: false }), Box::new(OptVsUnopt { core: false, all_configs_everywhere: false })],
+    }
 }
